@@ -41,7 +41,9 @@ structure GoodD (s : S) : Prop where
   od_after_oc : (s.hasOC = true ∧ s.odSum ≥ 1) → s.ocEnds ≥ 1
   td_st : s.tODe + s.tOD + s.tD4 ≥ 1 → s.st = 2
   hw_closed : s.hupWon = true → s.closing ≠ 0
-  hw_pc : s.hupWon = true ↔ s.hPc ≥ 2
+  hw_pc : s.hupWon = true → s.hPc ≥ 2
+  pc_hw : (2 ≤ s.hPc ∧ s.hPc ≤ 16) → s.hupWon = true
+  h4_fresh : (s.hPc ≤ 4 ∧ s.hasOC = false) → s.discRuns = 0
   prep : (s.server = true ∧ s.aPc ≤ 4) →
     (s.registered = false ∧ s.pPc = 0 ∧ s.hPc = 0 ∧ s.inLen = 0 ∧ s.reqRuns = 0 ∧ s.sPc = 0
      ∧ s.lockedTasks + s.t7a + s.t7b + s.t8a + s.t8b = 0)
